@@ -6,6 +6,12 @@ let of_emsg = function
   | Empty -> I 0 | NoTop -> I 1 | TopNotVar -> I 2 | InvalidRole -> I 3 | Unreachable -> I 4
 let of_errdict e = of_list (of_pair (of_opt of_triple) (of_list of_emsg)) e
 
+let of_piece = function
+  | Lit s -> L [I 0; of_str s] | Prefix -> L [I 1] | Idx -> L [I 2] | Jdx -> L [I 3]
+let to_override = function
+  | L [c; a; l] -> (to_n c, (to_bool a, to_str l))
+  | _ -> bad "override"
+
 let handler = function
   (* 1: Model.errors(graph) -> option errdict *)
   | L [I 1; m; g] -> of_opt of_errdict (errors_opt (to_model m) (to_graph g))
@@ -15,6 +21,30 @@ let handler = function
   (* 3: exit status over FILE arguments ; 4: over stdin *)
   | L [I 3; m; files] -> of_bool (cli_exit_code (to_model m) (to_list (to_list to_graph) files))
   | L [I 4; m; gs] -> of_bool (cli_exit_code_stdin (to_model m) (to_list to_graph gs))
+  (* 5: errors of the interpretation of a tree *)
+  | L [I 5; m; t] ->
+      let md = to_model m in
+      of_outcome (fun g -> of_opt of_errdict (errors_opt md g)) (interpret md (to_tree t))
+  (* 6 / 7: batched forms of 1 / 5 (one model table, many inputs) *)
+  | L [I 6; m; gs] ->
+      let md = to_model m in
+      of_list (fun g -> of_opt of_errdict (errors_opt md g)) (to_list to_graph gs)
+  | L [I 7; m; ts] ->
+      let md = to_model m in
+      of_list (fun t -> of_outcome (fun g -> of_opt of_errdict (errors_opt md g)) (interpret md t))
+        (to_list to_tree ts)
+  (* 10: parse_fmt ; 11: Tree.reset_variables(fmt) with CPython-supplied overrides for non-Latin-1 characters ;
+     12: the Latin-1 table itself for code points 0..n-1 ; 13: _default_variable_prefix *)
+  | L [I 10; s] -> of_opt (of_list of_piece) (parse_fmt (to_str s))
+  | L [I 11; ov; fmt; t] ->
+      (match parse_fmt (to_str fmt) with
+       | None -> L [I (-3)]
+       | Some ps -> of_outcome of_tree (reset_variables_ov (to_list to_override ov) ps (to_tree t)))
+  | L [I 12; n] ->
+      L (List.init (to_int n) (fun i ->
+           let c = n_of_int i in
+           L [of_bool (latin1_applies c); of_bool (latin1_is_alpha c); of_str (latin1_lower c)]))
+  | L [I 13; ov; c] -> of_str (prefix_ov (to_list to_override ov) (to_opt to_target c))
   | _ -> failwith "unknown command"
 
 let () = serve handler
